@@ -224,8 +224,57 @@ def maxRadius (crs : List Int) : Int := imax crs
 
 namespace CL
 
-/-- Batch `get_atoms_in_cells` (index sets per query).  `none` = not modelled
-(wrapped positive buffer length, radius beyond int32). -/
+/-- `get_atoms` for one query with an explicitly given cell radius (the value stored in `cell_radii`). -/
+def atomsWithCr (c : CL) (sc : CL → V3 → Int → List (V3 × Nat)) (q : V3) (r : Rat) (cr : Int) : List Nat :=
+  let q' := c.prepQ q
+  c.post (((sc c q' cr).filter fun pt => decide (sqDist q' pt.1 ≤ r * r)).map (·.2))
+
+/-- `np.ceil(radius / cellsize).astype(np.int32)` for a value beyond int32: the float→int32 cast gives
+`INT_MIN` (x86 `cvttss2si`; formally undefined) — the window `range(i-r, i+r+1)` is then empty. -/
+def castCr (cr : Int) : Int := if cr ≥ 2 ^ 31 then -(2 ^ 31) else cr
+
+/-- number of indices `_find_adjacent_atoms` writes for one query -/
+def scanLen (c : CL) (sc : CL → V3 → Int → List (V3 × Nat)) (q : V3) (cr : Int) : Nat :=
+  (sc c (c.prepQ q) cr).length
+
+/-- The result buffer length wrapped to a *non-negative* wrong value `L`: the rows are right as long as no
+query writes more than `L` indices; otherwise the code writes past the row (unchecked) — not modelled. -/
+def wrappedAnswer (c : CL) (sc : CL → V3 → Int → List (V3 × Nat)) (qs : List V3) (crs : List Int) (maxcr : Int)
+    (rows : List (List Nat)) : Option (Except Err (List (List Nat))) :=
+  if ((qs.zip crs).all fun qr => decide ((c.scanLen sc qr.1 qr.2 : Int) ≤ wrap32 (c.bufLen maxcr))) then some (.ok rows)
+  else none
+
+/-- `get_atoms_in_cells` with a cell radius beyond int32: a scalar is refused by `np.full(…, dtype=int32)`
+(`OverflowError`), an (int64) array is wrapped by `astype(np.int32)`. -/
+def cellsHuge (c : CL) (sc : CL → V3 → Int → List (V3 × Nat)) (qs : List V3) (rad : Rad Int) :
+    Option (Except Err (List (List Nat))) :=
+  match rad with
+  | .scalar _ => some (.error .overflowError)
+  | .multi rs =>
+    let crs := rs.map wrap32
+    let rows := (qs.zip crs).map fun qr => c.cellsWith sc qr.1 qr.2
+    match c.guard (maxRadius crs) with
+    | .fits => some (.ok rows)
+    | .negative => some (.error .valueError)
+    | .wrapped => c.wrappedAnswer sc qs crs (maxRadius crs) rows
+
+/-- `get_atoms` with `radius / cell_size ≥ 2^31`: a scalar radius is refused (`int(np.ceil(…))` does not fit
+`np.full(…, dtype=int32)`: `OverflowError`); per-query radii are cast silently (`castCr`): those queries
+return nothing — the known defect `C14/per-query-radius/…`. -/
+def atomsHuge (c : CL) (sc : CL → V3 → Int → List (V3 × Nat)) (qs : List V3) (rad : Rad Rat) :
+    Option (Except Err (List (List Nat))) :=
+  match rad with
+  | .scalar _ => some (.error .overflowError)
+  | .multi rs =>
+    let crs := rs.map fun r => castCr (c.cellRadius r)
+    let rows := (qs.zip rs).map fun qr => c.atomsWithCr sc qr.1 qr.2 (castCr (c.cellRadius qr.2))
+    match c.guard (maxRadius crs) with
+    | .fits => some (.ok rows)
+    | .negative => some (.error .valueError)
+    | .wrapped => c.wrappedAnswer sc qs crs (maxRadius crs) rows
+
+/-- Batch `get_atoms_in_cells` (index sets per query).  `none` only where the code writes past its
+(wrapped, too short) result buffer. -/
 def cellsBatchWith (c : CL) (sc : CL → V3 → Int → List (V3 × Nat)) (qs : List V3) (rad : Rad Int) :
     Option (Except Err (List (List Nat))) :=
   if qs.isEmpty then some (.ok []) else
@@ -233,11 +282,11 @@ def cellsBatchWith (c : CL) (sc : CL → V3 → Int → List (V3 × Nat)) (qs : 
   | .error e => some (.error e)
   | .ok () =>
     let crs := rad.expand qs.length
-    if crs.any (fun r => decide (r ≥ 2 ^ 31)) then none else
+    if crs.any (fun r => decide (r ≥ 2 ^ 31)) then c.cellsHuge sc qs rad else
     match c.guard (maxRadius crs) with
     | .fits => some (.ok ((qs.zip crs).map fun qr => c.cellsWith sc qr.1 qr.2))
     | .negative => some (.error .valueError)
-    | .wrapped => none
+    | .wrapped => c.wrappedAnswer sc qs crs (maxRadius crs) ((qs.zip crs).map fun qr => c.cellsWith sc qr.1 qr.2)
 
 /-- Batch `get_atoms`. -/
 def atomsBatchWith (c : CL) (sc : CL → V3 → Int → List (V3 × Nat)) (qs : List V3) (rad : Rad Rat) :
@@ -248,11 +297,11 @@ def atomsBatchWith (c : CL) (sc : CL → V3 → Int → List (V3 × Nat)) (qs : 
   | .ok () =>
     let rs := rad.expand qs.length
     let crs := rs.map c.cellRadius
-    if crs.any (fun r => decide (r ≥ 2 ^ 31)) then none else
+    if crs.any (fun r => decide (r ≥ 2 ^ 31)) then c.atomsHuge sc qs rad else
     match c.guard (maxRadius crs) with
     | .fits => some (.ok ((qs.zip rs).map fun qr => c.atomsWith sc qr.1 qr.2))
     | .negative => some (.error .valueError)
-    | .wrapped => none
+    | .wrapped => c.wrappedAnswer sc qs crs (maxRadius crs) ((qs.zip rs).map fun qr => c.atomsWith sc qr.1 qr.2)
 
 def cellsBatch (c : CL) := c.cellsBatchWith scan
 def atomsBatch (c : CL) := c.atomsBatchWith scan
@@ -379,12 +428,12 @@ def buildG (coords : List V3) (cs : Rat) (B : M3) (sel : Option (List Bool)) (p 
     box := none }
 
 /-- `CellList(coords, cs, periodic=True, box=B, selection)` for a general box matrix
-(singular box: numpy raises `LinAlgError`, not modelled: `none`). -/
+(singular box: `numpy.linalg.inv` raises `LinAlgError`). -/
 def mkG (coords : List V3) (cs : Rat) (B : M3) (sel : Option (List Bool)) : Option (Except Err CL) :=
   match selError coords sel with
   | some e => some (.error e)
   | none =>
-    if B.det = 0 then none else
+    if B.det = 0 then some (.error (.other "LinAlgError")) else
     if cs ≤ 0 then some (.error .valueError) else
     match allCoordsG coords B with
     | [] => some (.error .valueError)
